@@ -365,3 +365,25 @@ def piecewise(fn, F, pname, domain):
             return None
         out[v] = val
     return out
+
+
+def xor_rule(cx, rule, qual, pa, pb, lens):
+    """byte-wise XOR helper: the returned vector consists of a[i] ^ b[i] for i = 0 .. n (one append per index, same index
+    on both operands, nothing else appended)"""
+    from . import frame as FR
+    fn = cx.fn(qual, rule)
+    if fn is None:
+        return
+    P = Prov(fn, cx.F, cut_loops=True)
+    cn = Canon(fn, P)
+    apps = []
+    for b, t in fn.calls():
+        if t['fn']['k'] == 'def' and last(t['fn']['name']) in ('push', 'extend_from_slice', 'append', 'extend') and 'Vec' in t['fn']['name']:
+            apps.append((b, cn.c(norm(P.operand(t['args'][1], b, len(fn.blocks[b]['stmts']))))))
+    inloop = set().union(*[c for _, c in fn.natural_loops()]) if fn.natural_loops() else set()
+    want = []
+    for n in lens:
+        i = 'each(Range::Range{0, %s})' % n
+        want += ['BitXor($%s[%s], $%s[%s])' % (pa, i, pb, i), 'BitXor($%s[%s], $%s[%s])' % (pb, i, pa, i)]
+    ok = len(apps) == 1 and apps[0][0] in inloop and apps[0][1] in want
+    cx.add(rule, fn.short, ok, 'output byte i is %s[i] ^ %s[i] for every i below the length, one append per index: %s' % (pa, pb, [FR.short(x[1], 120) for x in apps]), fn.loc())
